@@ -79,7 +79,8 @@ Inductive result :=
 Inductive op :=
 | Get (a : str)
 | Put (a : str) (c : cred)
-| Delete (a : str).
+| Delete (a : str)
+| SetCs (s : str).     (* Config.SetCredentialsStore (called by DynamicStore.Put) *)
 
 (* FileStore.Put accepts: validateCredentialFormat (no colon in the username; the
    tokens, which are written as JSON strings, are valid UTF-8) and a server
@@ -249,6 +250,7 @@ Section Model.
         | None => (st, ROk)
         | Some _ => (save {| m_content := m_content m; m_cache := del a (m_cache m); m_cs := m_cs m |}, ROk)
         end
+    | SetCs s => (save {| m_content := m_content m; m_cache := m_cache m; m_cs := s |}, ROk)
     end.
 
   Fixpoint run (st : state) (h : list op) : state :=
@@ -284,6 +286,7 @@ Section Model.
     | Get _ => false
     | Put a c => put_accepts a c
     | Delete a => match lookup a (m_cache (st_mem st)) with Some _ => true | None => false end
+    | SetCs _ => true
     end.
 
   (* ---------- concurrency: threads are sequences of operations; every
@@ -325,6 +328,7 @@ Definition mem_step (m : list (str * cred)) (o : op) : list (str * cred) * resul
   | Get a => (m, RCred (match lookup a m with Some c => c | None => empty_cred end))
   | Put a c => if negb (put_accepts a c) then (m, RErrBadCred) else (set a c m, ROk)
   | Delete a => (del a m, ROk)
+  | SetCs _ => (m, ROk)
   end.
 
 Fixpoint mem_results (m : list (str * cred)) (h : list op) : list result :=
@@ -334,7 +338,7 @@ Fixpoint mem_results (m : list (str * cred)) (h : list op) : list result :=
   end.
 
 Definition op_addr (o : op) : str :=
-  match o with Get a | Put a _ | Delete a => a end.
+  match o with Get a | Put a _ | Delete a => a | SetCs _ => [] end.
 
 (* ---------- history: Load before the fix "a config file holding JSON null no
    longer makes Put panic".  json.Decode of the document `null` left
